@@ -289,9 +289,6 @@ package shmipc
 //@   preserves sessOK(s)
 //@   requires stream != nil
 
-//@ func (*Stream).halfClose
-//@   modifies heap
-
 // the data path below the event handlers (verified under C06/C08/C09, used here by contract only)
 //@ func (*Stream).fillDataToReadBuffer
 //@   modifies heap
@@ -665,9 +662,6 @@ func lemmaCreateThenMapQueue(data []byte, cap uint32) {
 //@   modifies nothing
 
 // thin contracts of what the pool calls (their bodies are verified under other properties or not at all)
-//@ func (*Stream).Close
-//@   modifies heap
-
 //@ func (*Session).OpenStream
 //@   ensures  r1 == nil ==> r0 != nil && r0.state == 0
 //@   ensures  r1 != nil ==> r0 == nil
@@ -874,3 +868,60 @@ func lemmaCreateThenMapQueue(data []byte, cap uint32) {
 //@   loop 0 invariant[C01,C02] mem32(b.bufferRegion, slotOf(b, buffer) + 4) == 0 && mem32(b.bufferRegion, slotOf(b, buffer) + 8) == 0 && mem8(b.bufferRegion, slotOf(b, buffer) + 16) == 0
 //@   loop 0 invariant[C01,C02] forall x in [0, len(b.bufferRegion)): (x < old(slotOf(b, buffer)) + 4 || x >= old(slotOf(b, buffer)) + 20) ==> mem8(b.bufferRegion, x) == old(mem8(b.bufferRegion, x))
 //@   loop 0 modifies[C01,C02] *b.tail
+
+// ---------------------------------------------------------------------------
+// C10: stream close is final, propagates, reported at most once (stream.go)
+// ---------------------------------------------------------------------------
+// Stream.state: 0 opened, 1 closed, 2 halfClosed. Every instruction of the package that writes it is in
+// one of the functions below (checked: "writers"), and each write is a CAS whose (compared, new) pair is a
+// forward transition - an obligation on a single atomic instruction, so it holds under every schedule.
+//@ writers Stream.state: newStream, (*Stream).Close, (*Stream).close, (*Stream).halfClose
+//@ ghost field Stream.remoteClosed: bool      // the peer's close was seen (set by halfClose when it wins)
+
+//@ func (*Stream).halfClose
+//@   ghost var won bool = false
+//@   ghost var cbs int = 0
+//@   at call sync/atomic.CompareAndSwapUint32#0 hint[C10] a1 == 0 && a2 == 2
+//@   at call sync/atomic.CompareAndSwapUint32#0 ghost won := r0
+//@   at call sync/atomic.CompareAndSwapUint32#0 ghost s.remoteClosed := s.remoteClosed || r0
+//@   at call? OnRemoteClose#0 hint[C10] won
+//@   at call? OnRemoteClose#0 ghost cbs := cbs + 1
+//@   exit[C10] cbs <= 1 && (cbs == 1 ==> won)
+//@   modifies heap
+
+//@ func (*Stream).Close
+//@   preserves s.session.shutdown != 1 ==> sessOK(s.session)
+//@   at call sync/atomic.CompareAndSwapUint32#0 hint[C10] a1 == 0 && a2 == 2
+//@   modifies heap
+
+// close: the only path to 'closed'. ghost won: this call performed the transition; cbs: callbacks issued;
+// notified: a close notification was handed to the queue or to the event connection; cleaned: clean() ran
+//@ func (*Stream).close
+//@   preserves s.session.shutdown != 1 ==> sessOK(s.session)
+//@   ghost var won bool = false
+//@   ghost var cbs int = 0
+//@   ghost var notified bool = false
+//@   ghost var cleaned bool = false
+//@   ghost var sawSessionClosed bool = false
+//@   at call sync/atomic.CompareAndSwapUint32#0 hint[C10] a2 == 1 && a1 != 1 && a1 == oldState
+//@   at call sync/atomic.CompareAndSwapUint32#0 ghost won := r0
+//@   at call? (*Stream).clean#0 ghost cleaned := true
+//@   at call? OnRemoteClose#0 hint[C10] won && oldState == 0
+//@   at call? OnLocalClose#0 hint[C10] won && oldState == 0
+//@   at call? OnRemoteClose#0 ghost cbs := cbs + 1
+//@   at call? OnLocalClose#0 ghost cbs := cbs + 1
+//@   at call? (*Session).IsClosed#0 ghost sawSessionClosed := sawSessionClosed || r0
+//@   at call? (*Session).IsClosed#1 ghost sawSessionClosed := sawSessionClosed || r0
+//@   at call? (*queue).put#0 ghost notified := notified || r0 == nil
+//@   at call? (*Session).waitForSend#0 ghost notified := true
+//@   exit[C10] cbs <= 1 && (won ==> cleaned)
+//@   exit[C10] won && oldState == 0 && !sawSessionClosed ==> notified                  // a local close of an open stream is propagated to the peer
+//@   exit[C10] won && oldState == 2 && !old(s.remoteClosed) ==> notified             // ... also when Close() was deferred during OnData (state halfClosed locally): fails today, finding F6
+//@   modifies heap
+
+//@ func (*Stream).clean
+//@   modifies heap
+//@ func (*Session).waitForSend
+//@   modifies heap
+//@ func (*Session).wakeUpPeer
+//@   modifies heap
